@@ -148,7 +148,7 @@ def run(pid, tier, seed):
     # two thirds without negation and without annotated disjunctions (the part of the family on which the export is
     # checked strictly, see the known findings), one third from the whole acyclic family
     ps = progs.programs(seed * 86028121 + 31, n - n // 3, max_choices=9, evidence=False, recursion=False, disj=False,
-                        negation=False, ads=False)
+                        negation=False, ads=False, max_body=3)
     ps += progs.programs(seed * 86028121 + 32, n // 3, max_choices=9, evidence=False, recursion=False, disj=False)
     col = Collector("C31:bn-export-vs-inference",
                     "%d seeded evidence-free acyclic programs of the bounded family (probabilistic facts incl. noisy-or and "
